@@ -912,6 +912,9 @@ class Prims:
                 ok = ok and bool(c)
             if ok:
                 out.append(self.eval1(ex, node.elt, s))
+            # path-local ghost records made by callees while evaluating the element belong to this path as well
+            if getattr(s, "ghost", None) is not None and s.ghost is not st.ghost:
+                st.ghost.update(s.ghost)
             # facts established while evaluating the element (postconditions of callees) hold afterwards:
             # with a concrete iterable every element expression is evaluated exactly once
             for f in s.pc[base:]:
